@@ -66,7 +66,7 @@ class FeatureInterval(AbstractFeatureInterval):
         self._genomic_starts = interval_starts
         self._genomic_ends = interval_ends
         self.start = self.genomic_start = interval_starts[0]
-        self.end = self.genomic_end = interval_ends[-1]
+        self.end = self.genomic_end = max(interval_ends)
         self._strand = strand
         self._parent_or_seq_chunk_parent = parent_or_seq_chunk_parent
         self.sequence_guid = sequence_guid
